@@ -10,6 +10,8 @@
 import Ipv8.C18.Lemmas
 import Ipv8.C18.LemmasProto
 import Ipv8.C18.LemmasSer
+import Ipv8.C18.LemmasVerifier
+import Ipv8.C18.LemmasBounds
 import Mathlib.Data.ZMod.Basic
 
 namespace Ipv8.C18
@@ -346,6 +348,84 @@ theorem outside_any_split_rejected (hash : A → A → Int) (g h : A) (pd : Rang
   exact answers_nonpos pv.m1 pv.m2 pv.m3 _ s t hsum (mst_nonpos_outside w value a b hab hout) h3 hs ht
 
 end range
+
+/-! ### the verifier's range is bound by the proof (prover's and verifier's ranges are independent arguments) -/
+
+section bounds
+variable {A : Type} [AddCommGroup A] [DecidableEq A]
+
+local notation "𝔾" => GroupOps.ofAdd A
+
+/-- a proof honestly built for [a, b] (any value, any randomness) that passes the check of a verifier whose format
+    says [a', b'] (any challenge, any answers): a ≡ a' and b ≡ b' modulo the order of g -/
+theorem accepted_binds_verifier_range (hash : A → A → Int) (g h : A) (value a b : Int) (rnd : RangeRand)
+    (pd : RangePublic A) (pv : RangePriv)
+    (hc : createAttestPair (𝔾) hash g h value a b rnd = some (pd, pv))
+    (a' b' s t x y u v : Int) (hacc : rangeCheck (𝔾) hash g h pd a' b' s t x y u v = true) :
+    (a - a') • g = 0 ∧ (b - b') • g = 0 :=
+  honest_accept_binds hash g h value a b rnd pd pv hc a' b' s t x y u v hacc
+
+/-- … hence, when g has order n and the bounds differ by less than n, the verifier's range IS the prover's range -/
+theorem accepted_only_for_own_range (hash : A → A → Int) (g h : A) (n : Nat)
+    (hord : ∀ k : Int, k • g = 0 → (n : Int) ∣ k) (value a b : Int) (rnd : RangeRand)
+    (pd : RangePublic A) (pv : RangePriv)
+    (hc : createAttestPair (𝔾) hash g h value a b rnd = some (pd, pv))
+    (a' b' s t x y u v : Int) (ha : |a - a'| < (n : Int)) (hb : |b - b'| < (n : Int))
+    (hacc : rangeCheck (𝔾) hash g h pd a' b' s t x y u v = true) : a = a' ∧ b = b' := by
+  have := honest_accept_binds hash g h value a b rnd pd pv hc a' b' s t x y u v hacc
+  exact ⟨eq_of_order g n hord a a' this.1 ha, eq_of_order g n hord b b' this.2 hb⟩
+
+/-- for ANY public data (not only honest ones): it cannot pass the check for two different ranges -/
+theorem one_proof_one_range (hash : A → A → Int) (g h : A) (pd : RangePublic A)
+    (a b s t x y u v a' b' s' t' x' y' u' v' : Int)
+    (h1 : rangeCheck (𝔾) hash g h pd a b s t x y u v = true)
+    (h2 : rangeCheck (𝔾) hash g h pd a' b' s' t' x' y' u' v' = true) :
+    (a - a') • g = 0 ∧ (b - b') • g = 0 :=
+  accept_two_ranges hash g h pd a b s t x y u v a' b' s' t' x' y' u' v' h1 h2
+
+end bounds
+
+/-! ### the verifier's bookkeeping (wallet/community.py): every answer is counted at most once, whatever the network does
+
+  `VState.run n evs` is the verifier's state after ANY sequence of events (arrival of a challenge-response datagram
+  for any challenge id with any answer, time-out of any pending challenge): duplicated, re-ordered, lost, late and
+  unsolicited datagrams are all event sequences. -/
+
+/-- the aggregate is the histogram of the counted answers, the counted challenges are DISTINCT real challenges that
+    are no longer outstanding, and every real challenge is either outstanding or counted -/
+theorem verifier_counts_each_challenge_once (n : Nat) (evs : List VEvent) :
+    let s := VState.run n evs
+    s.relmap = aggregate (s.log.map Prod.snd) ∧ (s.log.map Prod.fst).Nodup
+      ∧ (∀ id ∈ s.log.map Prod.fst, id < n ∧ id ∉ s.unanswered)
+      ∧ (∀ id, id < n → id ∈ s.unanswered ∨ id ∈ s.log.map Prod.fst) := by
+  intro s
+  have h := inv_run n evs
+  have hn := run_n n evs
+  exact ⟨h.rel, h.log_nodup, fun id hid => by rw [← hn]; exact h.log_lt id hid,
+    fun id hid => h.cover id (by rw [hn]; exact hid)⟩
+
+/-- honest prover (the answer to challenge id is always `ans id`), any schedule: the aggregate is the histogram of
+    `ans` over the distinct counted challenges … -/
+theorem verifier_aggregate_any_schedule (ans : Nat → Nat) (n : Nat) (evs : List VEvent)
+    (hon : ∀ id r h, VEvent.response id r h ∈ evs → id < n → r = ans id) :
+    (VState.run n evs).relmap = aggregate (((VState.run n evs).log.map Prod.fst).map ans) := by
+  have g := good_run ans n evs hon
+  exact relmap_of_honest ans _ g.inv g.honest
+
+/-- … and every aggregate the completion callback ever receives is the complete profile (or the empty map of the
+    failed-honesty-check path): duplicates can neither inflate a class nor complete the round early -/
+theorem verifier_completion_is_full_profile (ans : Nat → Nat) (n : Nat) (evs : List VEvent)
+    (hon : ∀ id r h, VEvent.response id r h ∈ evs → id < n → r = ans id) :
+    ∀ c ∈ (VState.run n evs).completions, c = Rel.empty ∨ c = aggregate ((List.range n).map ans) := by
+  have g := good_run ans n evs hon
+  have hn := run_n n evs
+  intro c hc
+  have := g.done c hc
+  rwa [hn] at this
+
+/-- non-vacuity: two challenges, the answer to challenge 0 delivered three times, then challenge 1 -/
+example : (VState.run 2 [.response 0 1 none, .response 0 1 none, .response 0 1 (some 2), .response 1 2 none]).completions
+    = [⟨0, 1, 1, 0⟩] := by decide
 
 /-! ### non-vacuity: a toy key over ℤ/15 (n = 15 = 3·5, t1 = 3, p = 29 ≡ 2 mod 3, g = 1, h = 5) satisfies the
     hypotheses, and the concrete model functions run on it -/
